@@ -233,6 +233,8 @@ def array(type_, **kwargs):
         raise ProphyError("static/limited array of dynamic type not allowed")
     if shift and (not bound or size):
         raise ProphyError("only shifting bound array implemented")
+    if shift < 0:
+        raise ProphyError("negative shift of bound array not allowed")
     if type_._UNLIMITED:
         raise ProphyError("array with unlimited field disallowed")
     if type_._OPTIONAL:
